@@ -57,9 +57,8 @@ def handle (req : Json) : Json :=
       jo [("out", jl (items.map fun j =>
         let nargs := jnat j "nargs"
         let args : List Val := (List.range nargs).map fun i => .obj 0 [] (1000 + i)
-        match callHandOver args (decKwargs (jget j "kw")) with
-        | .error .typeError => jo [("err", js "TypeError")]
-        | .ok (a, kw) => jo [("args", jl (a.map valTag)), ("kw", jl (kw.map fun p => jl [nmJ p.1, valTag p.2]))]))]
+        let (a, kw) := callHandOver args (decKwargs (jget j "kw"))
+        jo [("args", jl (a.map valTag)), ("kw", jl (kw.map fun p => jl [nmJ p.1, valTag p.2]))]))]
   | o => jerr ("C12: unknown op " ++ o)
 
 end Yaql.Drv.C12
